@@ -142,19 +142,21 @@ def tpiPublicKeys (c : Obj) : Res (List Str) := do
     | some _ => .error ()
   .ok (pk.toList ++ pks)
 
+/-- One entity of the signature loop: some (key id, signature) of it verifies against some public
+key. Anything that does not parse is skipped (`verified` only lists triples that parse). -/
+def entityVerifies (verified : List (Str × Str × Str)) (pks : List Str) (ent : List (Str × JVal)) : Bool :=
+  ent.any fun kv =>
+    match kv.2 with
+    | .str sig => pks.any (fun pk => verified.contains (kv.1, sig, pk))
+    | _ => false
+
 /-- The signature loop of `check_third_party_invite`: entities in map order; an entity that is not
-an object is an error at the moment it is reached; inside an entity, anything that does not parse
-is skipped; the first verifying (key id, signature, public key) allows. The cryptographic check is
-the oracle `verified` (see `Event.tpiVerified`). -/
+an object is an error at the moment it is reached; the first verifying (key id, signature, public
+key) allows. The cryptographic check is the oracle `verified` (see `Event.tpiVerified`). -/
 def tpiSignatureOk (verified : List (Str × Str × Str)) (pks : List Str) : Obj → Res Bool
   | [] => .ok false
   | (_, .obj ent) :: t =>
-    if ent.any (fun kv =>
-        match kv.2 with
-        | .str sig => pks.any (fun pk => verified.contains (kv.1, sig, pk))
-        | _ => false)
-    then .ok true
-    else tpiSignatureOk verified pks t
+    if entityVerifies verified pks ent then .ok true else tpiSignatureOk verified pks t
   | (_, _) :: _ => .error ()
 
 /-- `RoomCreateEvent::federate`. -/
@@ -187,19 +189,17 @@ def maxInt : Int := 9007199254740991
 
 def inRange (i : Int) : Bool := decide (-maxInt ≤ i) && decide (i ≤ maxInt)
 
-/-- `visit_str` of `deserialize_v1_powerlevel`: trim; with a leading `+` parse the rest as `UInt`,
-otherwise parse as `Int`. -/
+/-- `js_int` range check on a parsed value. -/
+def checkedLevel : Option Int → Res Int
+  | some v => if inRange v then .ok v else .error ()
+  | none => .error ()
+
+/-- `visit_str` of `deserialize_v1_powerlevel`: trim; with a leading `+` the rest must not start with
+another `+` and is parsed as `UInt`; otherwise parse as `Int`. -/
 def parseV1String (s : Str) : Res Int :=
-  let t := trim s
-  match t with
-  | 43 :: rest =>
-    match parseDecimal false rest with
-    | some v => if inRange v then .ok v else .error ()
-    | none => .error ()
-  | _ =>
-    match parseDecimal true t with
-    | some v => if inRange v then .ok v else .error ()
-    | none => .error ()
+  match trim s with
+  | 43 :: rest => if rest.head? = some 43 then .error () else checkedLevel (unsignedDecimal rest)
+  | t => checkedLevel (signedDecimal t)
 
 /-- One power level value: `from_json_value::<Int>` when `integer_power_levels`, else
 `deserialize_v1_powerlevel`. -/
@@ -558,7 +558,10 @@ def authCheckR (rules : AuthRules) (ev : Event) (f : Fetch) : Res Unit :=
     let federate ← createFederate create.content
     require (federate || userServer create.sender == userServer ev.sender)
     if rules.specialCaseRoomAliases && ev.type == tAliases then
-      require (ev.stateKey == userServer ev.sender)
+      -- `state_key() != Some(sender.server_name())`: no state key never matches
+      require (match ev.stateKey with
+        | some k => some k == userServer ev.sender
+        | none => false)
     else if ev.type == tMember then checkRoomMember rules ev create f
     else do
       let sm ← userMembership f ev.sender
@@ -590,6 +593,22 @@ def authCheck (rules : AuthRules) (ev : Event) (f : Fetch) : Bool :=
 def pushNew (l : List (Str × Str)) (k : Str × Str) : List (Str × Str) :=
   if l.contains k then l else l ++ [k]
 
+/-- The third-party-invite item of `auth_types_for_event` (`membership == invite`). -/
+def tpiAuthType (c : Obj) (l : List (Str × Str)) : Res (List (Str × Str)) := do
+  let tpi ← contentThirdPartyInvite c
+  match tpi with
+  | some signed => do
+    let token ← tpiToken signed
+    .ok (pushNew l (tThirdPartyInvite, token))
+  | none => .ok l
+
+/-- The `join_authorised_via_users_server` item (`membership == join && rules.restricted_join_rule`). -/
+def authorisedAuthType (c : Obj) (l : List (Str × Str)) : Res (List (Str × Str)) := do
+  let via ← contentJoinAuthorised c
+  match via with
+  | some u => .ok (pushNew l (tMember, u))
+  | none => .ok l
+
 /-- `auth_types_for_event(event_type, sender, state_key, content, rules)`. -/
 def authTypesForEvent (rules : AuthRules) (ev : Event) : Except Unit (List (Str × Str)) :=
   if ev.type == tCreate then .ok []
@@ -602,20 +621,8 @@ def authTypesForEvent (rules : AuthRules) (ev : Event) : Except Unit (List (Str 
         let l1 := pushNew base (tMember, sk)
         let m ← contentMembership ev.content
         let l2 := if m == mJoin || m == mInvite || m == mKnock then pushNew l1 (tJoinRules, []) else l1
-        let l3 ← if m == mInvite then do
-              let tpi ← contentThirdPartyInvite ev.content
-              match tpi with
-              | some signed => do
-                let token ← tpiToken signed
-                Except.ok (pushNew l2 (tThirdPartyInvite, token))
-              | none => Except.ok l2
-            else Except.ok l2
-        if m == mJoin && rules.restrictedJoinRule then do
-          let via ← contentJoinAuthorised ev.content
-          match via with
-          | some u => .ok (pushNew l3 (tMember, u))
-          | none => .ok l3
-        else .ok l3
+        (if m == mInvite then tpiAuthType ev.content l2 else .ok l2) >>= fun l3 =>
+          if m == mJoin && rules.restrictedJoinRule then authorisedAuthType ev.content l3 else .ok l3
     else .ok base
 
 end Ruma.Auth
